@@ -22,6 +22,7 @@ import (
 	"sync"
 	"syscall"
 	"time"
+	"verifharness/internal/netx"
 
 	"reservoir/cache"
 	"reservoir/config"
@@ -146,7 +147,7 @@ func workable() string {
 	}
 	defer p.Destroy()
 	var errlog bytes.Buffer
-	ps := httptest.NewUnstartedServer(p)
+	ps := netx.Server(p)
 	ps.Config.ErrorLog = newLogger(&errlog)
 	ps.Start()
 	defer ps.Close()
